@@ -217,6 +217,10 @@ def do_transform(sc, model, call):
             return m2.fit_transform(build_sparse(data), vectors=vec_array(data))
         return model.transform(build_sparse(data))
     if im == "spmatrix":
+        if call.get("refit"):
+            m2 = make_model(sc, input_method="spmatrix")
+            fit_model(sc, m2, data)
+            return m2.embedding_
         return model.transform(build_sparse(data), vectors=vec_array(data))
     ds, vs = lists_of(data)
     if im == "lil":
